@@ -704,7 +704,7 @@ def signature(tr, clause):
 
 def _size(case):
     return (len(case.get('meas', [])) + sum(len(s) for s in case.get('samples', [])), 'corrupt' in case,
-            case.get('order', 0), json.dumps(case, sort_keys=True))
+            case.get('order', 0), sum(m[0] for m in case.get('meas', [])), json.dumps(case, sort_keys=True))
 
 
 # --------------------------------------------------------------------------- the check
